@@ -51,11 +51,12 @@ def plan(tier):
         p.append((S.T2(shared=S.VM1_CHAIN[:1]).variant("/shared=install,ALL-SCHEDULES"), 99, 4))
     # configuration matrix: worker kinds x reuse scopes x slot bindings (same selection, default schedule and single deviations)
     p += S.config_matrix(S.T2, tier)
+    p += [(scn.variant(",mt=2"), k, w) for scn, k, w in S.config_matrix(S.T2, tier, k_quick=0, k_thorough=1, extra_params={"max_tries": 2})]
     return p
 
 
 def run(tier, seed):
-    return checkbase.run_e1("C03", tier, seed, TECH, (lambda: plan(tier)), monitors.c03, 420, 2400,
+    return checkbase.run_e1("C03", tier, seed, TECH, (lambda: plan(tier)), monitors.c03, 600, 2400,
                             "executions = complete runs of the real traversal, one per choice sequence (test durations from D, outcomes from O, "
                             "tie order of simultaneous events) with at most k non-default choices; distinct = distinct (scenario, sequence of "
                             "(worker, test, status)) signatures; states = distinct event histories at choice points",
